@@ -57,7 +57,20 @@ def main():
             meta["status"] = "obsolete"
             meta["ran"] = []
         else:
-            v = seedcheck.verify(d)
+            v = None
+            if os.environ.get("SEEDMETA_REUSE_VERIFY"):
+                # reuse an earlier confirmation of the same patch file (verify.json of the delivery, or the last meta.json)
+                pf = seedcheck.patch_of(d)
+                for cand in ("verify.json", "meta.json"):
+                    cp = os.path.join(d, cand)
+                    if os.path.exists(cp) and os.path.getmtime(cp) >= os.path.getmtime(pf):
+                        old = json.load(open(cp))
+                        old = old.get("confirmed") if isinstance(old.get("confirmed"), dict) else old
+                        if old.get("confirmed") is True:
+                            v = old
+                            break
+            if v is None:
+                v = seedcheck.verify(d)
             meta["confirmed"] = {k: v.get(k) for k in ("demo_without_patch", "build_with_patch", "suite_with_patch", "demo_with_patch", "confirmed")}
             checks = [prop] + remarks.get(i + ":also", [])
             res = seedcheck.run(d, "quick", checks)
